@@ -223,6 +223,9 @@ static void enumerate(void) {
             if (getenv("C07_VERBOSE")) { FILE* vf = fopen(getenv("C07_VERBOSE"), "a"); if (vf) { fprintf(vf, "%s: schedules=%ld interleaved=%ld maxpoints=%ld racy=%d rounds=%d nofix=%d\n", scn_desc(&s), N_EXEC, N_INTERLEAVED, MAX_POINTS, NRACY, LAST_ROUNDS, LAST_NOFIX); fclose(vf); } }
             mc_count("schedules", (uint64_t)N_EXEC); mc_count("schedules.with-race-detector", (uint64_t)N_DETECT); mc_count("schedules.interleaved", (uint64_t)N_INTERLEAVED); mc_count("replay-determinism-checks", (uint64_t)N_REPLAY_CHECKS);
             mc_count("choice-points.sum", (uint64_t)SUM_POINTS);
+            /* model-checking coverage keys: the search is stateless, so "states" are the scheduler states with a real choice (>= 2 enabled threads) visited over
+             * all executions, not deduplicated; "transitions" are the scheduling points passed; every trace is an execution of the implementation itself */
+            { uint64_t tr = 0; for (int k = 1; k < SCH_K_NKINDS; k++) tr += (uint64_t)KIND_POINTS[k]; mc_count("states", (uint64_t)SUM_POINTS); mc_count("transitions", tr); mc_count("traces_validated", (uint64_t)N_EXEC); }
             for (int k = 1; k < SCH_K_NKINDS; k++) if (KIND_POINTS[k]) { char nm[64]; snprintf(nm, sizeof nm, "points.%s", sch_kind_name(k)); mc_count(nm, (uint64_t)KIND_POINTS[k]); }
             mc_outcome(N_INTERLEAVED ? "interleaved" : "not-interleaved");
         }
